@@ -114,12 +114,20 @@ Section Model.
         Ok (mk_world (next + N.of_nat (length cs)) (fresh_block (mk_mblk h (alloc_msgs next cs)) []), rest)
     end.
 
-  (* b.serializedBlock = serializedBlock[:len(serializedBlock)-br.Len()] *)
+  (* consumed := serializedBlock[:len(serializedBlock)-br.Len()]
+     if len(consumed) == b.msgBlock.SerializeSize() { b.serializedBlock = consumed }
+     (since fix 6ccc2c9: the input is kept only when it has the size of the parsed message's serialisation;
+     MsgBlock.SerializeSize() is modelled as the length of MsgBlock.Serialize()'s output - a fact about
+     package wire that the harness checks on every block it builds or parses) *)
   Definition new_block_from_bytes (next : N) (bytes : list N) : res world :=
     do wr <- new_block_from_reader next bytes ;;
     let (w, rest) := (wr : world * list N) in
     if Nat.leb (length rest) (length bytes)
-    then Ok (mk_world (w_next w) (set_ser (w_blk w) (firstn (length bytes - length rest) bytes)))
+    then
+      let consumed := firstn (length bytes - length rest) bytes in
+      if Nat.eqb (length consumed) (length (ser_block (b_msg (w_blk w))))
+      then Ok (mk_world (w_next w) (set_ser (w_blk w) consumed))
+      else Ok w
     else Panic 2.
 
   (* ---------- accessors ---------- *)
@@ -316,6 +324,15 @@ Section Model.
   Definition wire_canonical : Prop :=      (* what Deserialize accepts is the canonical serialisation of what it returns *)
     forall bytes h cs rest, deser_block W bytes = Some (h, cs, rest) ->
       forall ptrs, map (@mt_val) ptrs = cs -> bytes = ser_block (mk_mblk h ptrs) ++ rest.
+  (* wire_canonical is FALSE of bchd v0.20.0 (an output script 0xef, 32 zero bytes, well-formed CashToken body is
+     read as token data and written back without it).  Since fix 6ccc2c9 the code needs only this weaker fact:
+     whatever Deserialize consumed, IF it has the size of the message's serialisation THEN it is that
+     serialisation (every non-canonical encoding wire accepts is longer than what it writes back). *)
+  Definition wire_size_canonical : Prop :=
+    forall bytes h cs rest, deser_block W bytes = Some (h, cs, rest) ->
+      forall ptrs, map (@mt_val) ptrs = cs ->
+        let consumed := firstn (length bytes - length rest) bytes in
+        length consumed = length (ser_block (mk_mblk h ptrs)) -> consumed = ser_block (mk_mblk h ptrs).
   Definition wire_roundtrip : Prop :=      (* prefix code: Deserialize inverts Serialize and leaves what follows *)
     forall m rest, deser_block W (ser_block m ++ rest) = Some (mb_hdr m, map (@mt_val) (mb_txs m), rest).
 
